@@ -15,6 +15,8 @@
     Props/GenLogicIntern   Gen/LogicIntern   interned.rs ↔ Model/Intern                   (C07, C09)
     Props/GenLogicCycle    Gen/LogicCycle    fetch.rs: fetch_cold_cycle ↔ Model/Cycle     (C12, C15)
     Props/GenLogicStructs  Gen/LogicStructs  tracked_struct.rs ↔ Model/Structs, CoreSpec  (C06)
+    Props/GenLogicDG       Gen/LogicDG       runtime/dependency_graph.rs, runtime.rs
+                                             ↔ Model/SyncDG                   (C14, C16–C19)
 
   This module only collects them (all theorems are in namespace `SalsaVerif.Props.GenLogic`).
 -/
@@ -22,3 +24,4 @@ import SalsaVerif.Props.GenLogicVerify
 import SalsaVerif.Props.GenLogicIntern
 import SalsaVerif.Props.GenLogicCycle
 import SalsaVerif.Props.GenLogicStructs
+import SalsaVerif.Props.GenLogicDG
